@@ -68,7 +68,8 @@ func genRegistry(w *World) string {
 	}
 	sb.WriteString(")\n\n")
 	sb.WriteString("type ZzObj struct{ V uint16 }\n")
-	sb.WriteString("func (o *ZzObj) Encode(buf *bytes.Buffer) error { return codec.WriteBasicType(buf, o.V) }\n")
+	sb.WriteString("func (o *ZzObj) Encode(buf *bytes.Buffer) error {\n\tif o.V == 0xFFFF {\n\t\treturn errZzRefuse\n\t}\n\treturn codec.WriteBasicType(buf, o.V)\n}\n")
+	sb.WriteString("var errZzRefuse error = zzErr{}\ntype zzErr struct{}\nfunc (zzErr) Error() string { return \"zz: element refuses to encode\" }\n")
 	sb.WriteString("func (o *ZzObj) Decode(buf *bytes.Buffer) error { v, err := codec.ReadBasicType[uint16](buf); o.V = v; return err }\n\n")
 	sb.WriteString("var primNew = map[string]any{\"func() *main.ZzObj\": func() *ZzObj { return &ZzObj{} }}\n\n")
 	sb.WriteString("var registry = map[string]map[string]func() any{\n")
